@@ -348,7 +348,7 @@ static void pm_parse(const char *s, pm_desc *d)
 			v = v * 10 + (*p - '0');
 		    ++p;
 		}
-		if (v > 2147483647LL) {
+		if (v >= 2147483647LL) {
 		    /* an index no list can have: the document refuses it in
 		       every entry point (drivers accept EINVAL and ENOENT) */
 		    d->malformed = 1;
